@@ -146,6 +146,7 @@ type pathEnv struct {
 	bind   []ssa.Value // bindings of free variables (from MakeClosure in parent)
 	memo   map[ssa.Value]*Path
 	active map[ssa.Value]bool
+	loadAt ssa.Instruction
 	allocN map[*ssa.Alloc]int
 	stores map[*ssa.Alloc][]*ssa.Store
 }
@@ -335,7 +336,10 @@ func (e *pathEnv) compute(v ssa.Value) *Path {
 	case *ssa.UnOp:
 		switch x.Op {
 		case token.MUL: // load
-			return e.load(x.X)
+			e.loadAt = x
+			p := e.load(x.X)
+			e.loadAt = nil
+			return p
 		case token.ARROW:
 			return &Path{Kind: "unop", Name: "<-", Args: []*Path{e.of(x.X)}}
 		default:
@@ -535,18 +539,20 @@ func (e *pathEnv) load(addr ssa.Value) *Path {
 		if al, ok := a.X.(*ssa.Alloc); ok && al.Parent() == e.fn {
 			if sts := e.allStores(al); len(sts) == 0 {
 				var val ssa.Value
+				var valStore ssa.Instruction
 				n := 0
 				for _, b := range e.fn.Blocks {
 					for _, in := range b.Instrs {
 						if st, ok := in.(*ssa.Store); ok {
 							if fa, ok := st.Addr.(*ssa.FieldAddr); ok && fa.X == al && fa.Field == a.Field {
 								val = st.Val
+								valStore = in
 								n++
 							}
 						}
 					}
 				}
-				if n == 1 && val != nil {
+				if n == 1 && val != nil && (e.loadAt == nil || instrDominates(valStore, e.loadAt)) {
 					return e.of(val)
 				}
 			}
@@ -746,4 +752,15 @@ func (e *pathEnv) arrayLiteral(sl *ssa.Slice) *Path {
 		p.Args = append(p.Args, e.of(elems[i]))
 	}
 	return p
+}
+
+// instrDominates: a executes before b on every path to b (same block earlier, or dominating block).
+func instrDominates(a, b ssa.Instruction) bool {
+	if a == nil || b == nil {
+		return false
+	}
+	if a.Block() == b.Block() {
+		return instrIndex(a) < instrIndex(b)
+	}
+	return a.Block().Dominates(b.Block())
 }
